@@ -146,6 +146,12 @@ def richardson(ctx):
                 f = DS.DiffRHS(rhs)
                 ts, (ts2, ret), diff = integ.adaptive_richardson(f, np.float64(0.5), y0.copy(), {}, np.float64(h))
                 mlast = int(integ.solver_dict["num_richardson_iterations"])
+                levels = int(np.shape(integ.stage_values)[0])
+                ctx.oracle("richardson-levels-as-requested", levels == R, dict(kind="richardson", basis=basis.__name__, richardson_iter=R, levels=levels,
+                                                                              earlier_requests="2..%d for the same basis" % (R - 1)),
+                           what="generate_richardson_integrator(%s, %d) built an integrator with %d extrapolation levels" % (basis.__name__, R, levels))
+                if levels < R:
+                    continue
                 vals = [np.array(integ.stage_values[m, 0]) for m in range(R)]
                 for comp in range(2):
                     lines.append("rich %d %s" % (mlast, qlist([Fr(float(v[comp])) for v in vals[:mlast + 1]])))
